@@ -554,6 +554,18 @@ def ancillary_part(rep):
                             witness=f"{pk}:{case['value']}",
                             detail=f"initial {name}={P[name].value}, "
                             f"expected {exp}", case=case, kind="anc"))
+                import nanite.model as nm
+                for rnd in range(2):
+                    for mk, want in (("vk_anc", ["max_indent", pk]),
+                                     ("hertz_para", ["max_indent"]),
+                                     ("vk_anc", ["max_indent", pk])):
+                        got = list(nm.get_anc_parm_keys(mk))
+                        if got != want:
+                            rep.violate(V(
+                                PROP, "defaults", site="ancillary-keys",
+                                witness=f"{mk}:round{rnd}",
+                                detail=f"ancillary keys of {mk} are {got}, "
+                                f"expected {want}", case=case, kind="anc"))
                 anc = c.get_ancillary_parameters(model_key="vk_anc")
                 if list(anc.keys()) != ["max_indent", pk]:
                     rep.violate(V(PROP, "defaults", site="ancillaries",
